@@ -219,7 +219,7 @@ func settings(cfg Config, kind, t string) []erpc.MessageSetting {
 	}
 	s := []erpc.MessageSetting{erpc.WithBodyCodec(tok.CodecID(kind)), erpc.WithSetMeta("Tok", t), erpc.WithSetMeta("M1", tok.MetaVal(t, 1))}
 	if dupMetaOK(cfg.Proto) && tok.DupMeta(t) {
-		s = append(s, erpc.WithSetMeta("Dn", "2"), erpc.WithAddMeta("Dup", tok.MetaVal(t, 3)), erpc.WithAddMeta("Dup", tok.MetaVal(t, 4)))
+		s = append(s, erpc.WithSetMeta("Dn", "2"), erpc.WithAddMeta("Dup", tok.MetaVal(t, 3)), erpc.WithAddMeta("Dup", tok.MetaVal(t, 4)), erpc.WithSetMeta("Esc", tok.EscVal(t)))
 	}
 	if a := acceptFor(kind, t); a != 0 {
 		s = append(s, erpc.WithAcceptBodyCodec(a))
@@ -331,6 +331,12 @@ func (cs *caseState) checkReply(kind, t string, cmd erpc.CallCmd, arg interface{
 	if got := string(im.Peek("R1")); got != tok.MetaVal(t, 2) {
 		cs.report("caller-meta-foreign", kind, fmt.Sprintf("token %q: reply metadata R1=%q want %q", t, got, tok.MetaVal(t, 2)))
 		return
+	}
+	if dupMetaOK(cs.cfg.Proto) && tok.DupMeta(t) {
+		if got := string(im.Peek("Resc")); got != tok.EscVal("R:"+t) {
+			cs.report("caller-meta-foreign", kind, fmt.Sprintf("token %q: reply metadata Resc=%q, the handler set %q", t, got, tok.EscVal("R:"+t)))
+			return
+		}
 	}
 	if want := tok.TailMeta("R:" + t); want != "-" {
 		if got := string(im.Peek("Ztail")); got != want {
